@@ -25,6 +25,14 @@ def run(ctx):
         b = t['behaviour'][:step]
         o = t['events'][step - 1]['obs']['pub']
         ctx.violation(clause, 'alg=%s protection-state-after=%s' % (t['meta']['alg'], b[-1][0]), {'behaviour': b, 'pub': {k: v for k, v in o.items() if k not in ('blob', 'uids')}})
+    # ---- public counterparts along key-management histories (identities added / removed / re-certified, subkeys added, revocations),
+    #      with earlier twins kept alive by the caller: key.pubkey taken NOW must reflect the key as it is now
+    from .. import certlife
+    ctraces, crej = certlife.generate(ctx, 'C07')
+    for t, clause, step, vw in crej:
+        tr = ctraces[t]
+        hist = [(e['act']['op'], e['act']['a'], e['act']['tag']) for e in tr[:step]]
+        ctx.violation(clause, 'key-management history, last-op=%s view=%s' % (hist[-1][0], vw), {'history': hist, 'view': vw})
     return ctx.finish(level='model_checking',
                       rule='the public counterpart observed after every step of every life-cycle behaviour of C06 (all action sequences to depth 3-5 on Ed25519, '
                            'samples on RSA / ECDSA+ECDH / DSA keys with subkeys, user attributes absent, third-party and non-exportable certifications present)',
